@@ -5,4 +5,5 @@ INVARIANT AtMostOne
 INVARIANT ForgetSilent
 INVARIANT Answered
 INVARIANT OneOperation
+INVARIANT NegativeEntry
 CHECK_DEADLOCK FALSE
